@@ -663,7 +663,7 @@ Proof.
   - change (String.eqb (py_strip (Uml.lower "EnumerationLiteral")) "enumerationliteral") with true. cbn iota.
     rewrite c_member_name. cbn [bind c_mname].
     cbn [member_ok] in Hm. c_split.
-    match goal with H : ident nm = true |- _ => unfold ident, txt in H end. c_split.
+    match goal with H : mname nm = true |- _ => unfold mname, ntxt, UmlDomain.nameok in H end. c_split.
     match goal with H : String.eqb (py_strip nm) nm = true |- _ => apply String.eqb_eq in H; rewrite H end.
     unfold c_add_lits. rewrite En. reflexivity.
 Qed.
